@@ -121,7 +121,7 @@ package engine
 // C06: at most MaxCycle firings
 //@   ensures[C06] budget: $runExec <= g.MaxCycle
 // C06 / C02: nil only at quiescence (every active rule evaluated and reported once in the final cycle, none a candidate) or after Complete
-//@   ensures[C06,C02] quiescent: err == nil && !$complete[dataCtx] ==> (forall re *ast.RuleEntry :: !candNow(re))
+//@   ensures[C06,C02,C10] quiescent: err == nil && !$complete[dataCtx] ==> (forall re *ast.RuleEntry :: !candNow(re))
 //@        && (forall k string :: has(knowledge.RuleEntries, k) && active(RE(knowledge, k)) ==> $evalStamp[RE(knowledge, k)] == $stamp && $evalCnt[RE(knowledge, k)] == 1 && $notifStamp[RE(knowledge, k)] == $stamp)
 // C06: an error that is neither a cancellation, an action failure, a (flagged) evaluation failure nor a bad argument is the cycle-limit error,
 // and it is returned exactly when the budget is used up and one more firing would be needed
